@@ -62,12 +62,47 @@ Proof.
   split; [apply inv_init; try reflexivity; left; reflexivity|].
   split.
   { intros x [<-|[<-|[<-|[<-|[]]]]]; simpl; split; try discriminate; unfold xU; simpl; auto 10. }
-  intros HL. fold xn in HL.
-  assert (A : avail xapply xn xB2).
+  intros HL. set (nn := history xapply true 100 (init_node xg) xhist) in *.
+  assert (A : avail xapply nn xB2).
   { exists xg, [xB1; xB2], [xB1].
     split; [vm_compute; reflexivity|]. split; [vm_compute; discriminate|]. split; [vm_compute; discriminate|].
     split; [vm_compute; auto|]. split; [reflexivity|]. split.
     - intros c [<-|[<-|[]]]; vm_compute; reflexivity.
     - vm_compute. auto. }
   specialize (HL _ A). vm_compute in HL. apply HL. reflexivity.
+Qed.
+
+(** crash_replay_converges is false for a crash during a reorganisation before the reorg marker:
+    G-A1 main, B1 side, B2 arrives (reorg to B2).  Crash right after B2 was stored: the node
+    restarts consistently on A1 with the longer branch stored; re-delivering B2 is answered
+    "already connected" and the node stays on A1 (known finding
+    C06:crash-before-reorg-marker-replay-does-not-reorganise). *)
+Definition xm : node := history xapply true 100 (init_node xg) [(0, xA1); (0, xB1)].
+Example xm_inv : Inv xapply xspent xU xg xm.
+Proof.
+  apply (history_inv xapply 100 xspent xapply_fresh xapply_spent xU xU_inj xg).
+  - apply inv_init; try reflexivity. left. reflexivity.
+  - intros x [<-|[<-|[]]]; simpl; split; try discriminate; unfold xU; simpl; auto 10.
+Qed.
+
+Theorem crash_replay_converges_refuted :
+  exists (apply : sroot -> block -> option sroot) (spent : sroot -> txid -> bool) (U : block -> Prop) (g : block)
+         (n : node) (b : block) (k : nat),
+    (forall r b r', apply r b = Some r' -> NoDup (txs b) /\ forall t, In t (txs b) -> spent r t = false) /\
+    (forall r b r' t, apply r b = Some r' -> spent r' t = spent r t || mem t (txs b)) /\
+    (forall a b, U a -> U b -> hash_field a = hash_field b -> a = b) /\
+    Inv apply spent U g n /\ U b /\ no b <> 0 /\
+    let n' := fst (add_block apply true 100 n b) in
+    hash_field (best n') = hash_field b /\
+    match restart true (crash k (dur n) (units_since n n')) with
+    | Some (StartOk r) =>
+        snd (add_block apply true 100 r b) = RKnown /\
+        hash_field (best (fst (add_block apply true 100 r b))) <> hash_field (best n')
+    | _ => False
+    end.
+Proof.
+  exists xapply, xspent, xU, xg, xm, xB2, 1%nat.
+  split; [exact xapply_fresh|]. split; [exact xapply_spent|]. split; [exact xU_inj|].
+  split; [exact xm_inv|]. split; [unfold xU; simpl; auto 10|]. split; [discriminate|].
+  vm_compute. split; [reflexivity|]. split; [reflexivity|discriminate].
 Qed.
